@@ -351,6 +351,21 @@ def Crash (t : Trace) (k : Nat) (img : Img) : Prop :=
   (∃ jl, LenOK t k jl ∧ img.len = (vol t jl).len) ∧
   ∀ s, ∃ j, VerOK t k s j ∧ ∀ i, i / kSector = s → i < img.len → img.get i = (vol t j).get i
 
+/-- decidable form of `VerOK` (used by the driver's enumeration) -/
+def verOKB (t : Trace) (k s j : Nat) : Bool :=
+  decide (j ≤ k) && (List.range (k + 1)).all fun y =>
+    !(decide (j < y) && decide (y ≤ k)) || !((t.getD (y - 1) .close).covers (vol t y).len s)
+
+/-- decidable form of `LenOK` -/
+def lenOKB (t : Trace) (k jl : Nat) : Bool :=
+  decide (jl ≤ k) && (List.range (k + 1)).all fun y =>
+    !(decide (jl < y) && decide (y ≤ k)) || !((t.getD (y - 1) .close).isSync)
+
+/-- the image with the length of version `jl` and sector `s` at version `choice s`; `vols j` is the
+volatile image after `j` events (the driver passes a table of them) -/
+def crashImage (vols : Nat → Img) (jl : Nat) (choice : Nat → Nat) : Img :=
+  ⟨(vols jl).len, fun i => (vols (choice (i / kSector))).get i⟩
+
 /-- the binary format as far as C09 needs it: the reference `Sanity` bytes (regenerated),
 `kMagicIncomplete`, the total header size of this build, the size the header announces
 (`LoadBinary`'s `total_map`, as a function of the header bytes) and the remaining header
@@ -402,10 +417,21 @@ complete `Sanity` header -/
 def commitIdx (f : Fmt) (t : Trace) : Option Nat :=
   firstIdx (fun c => prefixIs (vol t (c + 1)) f.sanity) t.length
 
+/-- an event that is not a write, or a write inside `[0, H)` -/
+def Ev.inHeader (e : Ev) (H : Nat) : Bool :=
+  match e with
+  | .pwrite off bs => decide (off + bs.size ≤ H)
+  | .store off bs => decide (off + bs.size ≤ H)
+  | e => !e.isWrite
+
+/-- between events `a` and `b` (exclusive) only the header `[0, H)` is written -/
+def onlyHeaderBetween (t : Trace) (a b H : Nat) : Bool :=
+  (List.range t.length).all fun j => !(decide (a < j) && decide (j < b)) || (t.getD j .close).inHeader H
+
 def noWriteBetween (t : Trace) (a b : Nat) : Bool :=
   (List.range t.length).all fun j => !(decide (a < j) && decide (j < b)) || !(t.getD j .close).isWrite
 
-/-- the "incomplete" marker: before the commit every non-empty image starts with `kMagicIncomplete`
+/-- the "incomplete" marker: up to event `c` every non-empty image starts with `kMagicIncomplete`
 or with zeros (WRITE_AFTER writes the vocabulary strings first, leaving a hole at offset 0) -/
 def markerOK (f : Fmt) (t : Trace) (c : Nat) : Bool :=
   (List.range (c + 1)).all fun j =>
@@ -414,24 +440,26 @@ def markerOK (f : Fmt) (t : Trace) (c : Nat) : Bool :=
 
 /-- **the writer protocol**, decidable, transcribed from lm/binary_format.cc
 (SetupJustVocab / GrowForSearch / WriteVocabWords / FinishFile / WriteHeader):
-there is a commit event `c`; it is a single write inside the header `[0, headerSize)` of a file
-that is already at least that long; the header fits a sector; nothing is written after it; some earlier event `y` is a sync of the
-whole file as it then is, and nothing is written between `y` and `c`; until `c` the file
-shows the incomplete marker. -/
+there is a commit event `c` (the first event after which the file starts with the complete
+`Sanity`); it is a write inside the header `[0, headerSize)`; the header fits a sector; nothing
+is written after it; some earlier event `y` is a sync of the whole file as it then is (already
+at least header-size long), and between `y` and `c` only the header is written (the parameters
+and counts, when `WriteHeader`'s stores are traced one by one); up to and including that sync
+the file shows the incomplete marker. -/
 def conforms (f : Fmt) (t : Trace) : Bool :=
   match commitIdx f t with
   | none => false
   | some c =>
     decide (f.headerSize ≤ kSector) && decide (f.sanity.size < f.headerSize) &&
-    !prefixIs Img.empty f.sanity && decide (f.headerSize ≤ (vol t c).len) &&
+    !prefixIs Img.empty f.sanity &&
     (match t.getD c .close with
      | .pwrite off bs => decide (off + bs.size ≤ f.headerSize)
      | .store off bs => decide (off + bs.size ≤ f.headerSize)
      | _ => false) &&
     noWriteBetween t c t.length &&
     ((List.range c).any fun y =>
-      (t.getD y .close).fullSync (vol t (y + 1)).len && noWriteBetween t y c) &&
-    markerOK f t c
+      (t.getD y .close).fullSync (vol t (y + 1)).len && decide (f.headerSize ≤ (vol t (y + 1)).len) &&
+      onlyHeaderBetween t y c f.headerSize && markerOK f t (y + 1))
 
 /-- the clause "the completed header becomes visible only after all other bytes have been
 forced to stable storage", on its own -/
@@ -439,7 +467,8 @@ def headerLast (f : Fmt) (t : Trace) : Bool :=
   match commitIdx f t with
   | none => false
   | some c => (List.range c).any fun y =>
-      (t.getD y .close).fullSync (vol t (y + 1)).len && noWriteBetween t y c
+      (t.getD y .close).fullSync (vol t (y + 1)).len && decide (f.headerSize ≤ (vol t (y + 1)).len) &&
+      onlyHeaderBetween t y c f.headerSize
 
 end Fs
 
